@@ -97,6 +97,16 @@ def _run_cvc5(smt2, tlimit_ms):
         os.unlink(path)
 
 
+def check_guard(hyps, ms):
+    t0 = time.time()
+    s = Solver()
+    s.set('timeout', ms)
+    for h in hyps:
+        s.add(h)
+    r = s.check()
+    return ('sat' if r == sat else 'unsat' if r == unsat else 'unknown', 'z3', time.time() - t0, None)
+
+
 def check_one(hyps, goal, z3_ms, cvc5_ms, watch=None):
     t0 = time.time()
     s = Solver()
@@ -125,7 +135,22 @@ def check_one(hyps, goal, z3_ms, cvc5_ms, watch=None):
         if r2 == 'unsat':
             return 'unsat', 'cvc5', time.time() - t0, None
         if r2 == 'sat':
-            return 'sat', 'cvc5', time.time() - t0, None
+            # a refutation is only accepted from z3 (it comes with a model that can be replayed); cvc5's `sat`
+            # on a query z3 could not decide stays undecided
+            return 'unknown', 'z3+cvc5(sat)', time.time() - t0, None
+    # last resort: z3 again with other random seeds (its sequence solver is sensitive to them)
+    for seed in (7, 23):
+        s3 = Solver()
+        s3.set('timeout', z3_ms)
+        s3.set('random_seed', seed)
+        for h in hyps:
+            s3.add(h)
+        s3.add(Not(goal))
+        r3 = s3.check()
+        if r3 == unsat:
+            return 'unsat', 'z3(seed %d)' % seed, time.time() - t0, None
+        if r3 == sat:
+            break
     return 'unknown', 'z3+cvc5', time.time() - t0, None
 
 
@@ -135,7 +160,10 @@ def _work(idx):
     verdict, backends, total, model = 'unsat', set(), 0.0, None
     nq = 0
     for g in parts:
-        v, be, dt, m = check_one(o.hyps, g, _CFG['z3_ms'], _CFG['cvc5_ms'], o.watch)
+        if o.kind == 'V':      # reachability / consistency guards: a model is searched with a short budget only
+            v, be, dt, m = check_guard(o.hyps, 3000)
+        else:
+            v, be, dt, m = check_one(o.hyps, g, _CFG['z3_ms'], _CFG['cvc5_ms'], o.watch)
         nq += 1
         total += dt
         backends.add(be)
@@ -182,3 +210,32 @@ def quick_sat(hyps, ms=150):
     for h in hyps:
         s.add(h)
     return s.check() != unsat
+
+
+# ---------------------------------------------------------------------- grouped (incremental) discharge inside one process
+class OblInfo:
+    """picklable summary of an obligation (what reports and evidence need)"""
+    __slots__ = ('name', 'kind', 'props', 'meta', 'func')
+
+    def __init__(self, o):
+        self.name, self.kind, self.props, self.meta, self.func = o.name, o.kind, tuple(o.props), dict(o.meta), o.func
+
+
+def discharge_grouped(obls, z3_ms=5000, cvc5_ms=20000):
+    """discharge inside one process, one fresh solver per query (z3's incremental mode is an order of magnitude
+    slower on these sequence-heavy queries, measured)"""
+    out = []
+    for o in obls:
+        verdict, backends, total, model, nq = 'unsat', set(), 0.0, None, 0
+        for g in split_goal(o.goal):
+            v, be, dt, m = check_one(o.hyps, g, z3_ms, cvc5_ms, o.watch if o.kind != 'V' else None)
+            nq += 1
+            total += dt
+            backends.add(be)
+            if v == 'sat':
+                verdict, model = 'sat', m
+                break
+            if v == 'unknown':
+                verdict = 'unknown'
+        out.append(Result(OblInfo(o), verdict, '+'.join(sorted(backends)), total, model, nq))
+    return out
